@@ -218,7 +218,8 @@ def variants(repo):
     ]
     return _extra + [
         V("creator mutates library dict", lc, in_function("create_line", replace_once('    lineparam = load_std_type(net, std_type, "line")\n', '    lineparam = load_std_type(net, std_type, "line")\n    lineparam["max_i_ka"] = lineparam["max_i_ka"] * df\n')), "LOAD-ALIAS"),
-        V("creator ignores g", lc, in_function("create_line", lambda s: s.replace('entries["g_us_per_km"] = lineparam["g_us_per_km"] if "g_us_per_km" in lineparam else 0.0', 'entries["g_us_per_km"] = 0.0', 1)), None),
+        V("fuse total curve built with the minimum times", "pandapower/protection/protection_devices/fuse.py", replace_once('self.create_characteristic(net, fuse_data["x_total"], fuse_data["t_total"])', 'self.create_characteristic(net, fuse_data["x_total"], fuse_data["t_min"])'), "FUSE-CURVE"),
+        V("creator ignores g", lc, in_function("create_line", lambda s: s.replace('entries["g_us_per_km"] = lineparam["g_us_per_km"] if "g_us_per_km" in lineparam else 0.0', 'entries["g_us_per_km"] = 0.0', 1)), "STD-SIBLING"),
         V("trafo creator ignores pfe", tc, in_function("create_transformer", replace_once('        "pfe_kw": ti["pfe_kw"],\n', '        "pfe_kw": 0.,\n')), "basic_trafo_std_types::pfe_kw"),
         V("twin: private copy then mutate", lc, in_function("create_line", replace_once('    lineparam = load_std_type(net, std_type, "line")\n', '    lineparam = load_std_type(net, std_type, "line")\n    lineparam = dict(lineparam)\n    lineparam["max_i_ka"] = lineparam["max_i_ka"] * 1.0\n')), None),
     ]
